@@ -1096,6 +1096,125 @@ def run_modified(ctx, cs0, ref):
 SIMPLE_GUARDED = set()
 
 
+def run_cycles(ctx, cs0, ref):
+    """The nested `cycles` setting: every combination of its input groups per cycle entry, derived from the schema's own
+    keys. Exactly one of {cumulative days}, {step days}, {cycle length and/or burn steps} is valid (the rule the setting
+    documents); every other combination must be refused on assignment, through modified() and on read, leaving the
+    previous value. The expectation is computed from the key groups, NOT from the schema's verdict."""
+    import itertools
+    import voluptuous as vol
+    from armi import settings
+    rng = ctx.rng
+    setting = ref["cycles"]
+    entry = setting.schema.schema[0].validators[0]          # the dict of one cycle entry
+    keys = [k.schema if isinstance(k, vol.Marker) else k for k in entry]
+    detailed = [k for k in keys if k in ("cumulative days", "step days")]
+    simple = [k for k in keys if k in ("cycle length", "burn steps")]
+    optional = [k for k in keys if k not in detailed + simple]
+    if sorted(detailed) != ["cumulative days", "step days"] or sorted(simple) != ["burn steps", "cycle length"]:
+        ctx.fail("cycles-schema-shape", "the cycles schema has the documented input groups", {"keys": keys})
+        return
+
+    def value_for(key):
+        sub = entry[[k for k in entry if (k.schema if isinstance(k, vol.Marker) else k) == key][0]]
+        cands = {"cumulative days": [[1, 2, 3], [10.0, 20.5], [5]], "step days": [[1, 2], ["3*4"], [10.0]],
+                 "cycle length": [100, 365.25, "30"], "burn steps": [0, 2, "3"], "availability factor": [1, 0.9, 0, "0.5"],
+                 "power fractions": [[1, 0.5], ["2*0.3"]], "name": ["startup", "cycle 1"]}[key]
+        good = []
+        for c in cands:
+            try:
+                vol.Schema(sub)(copy.deepcopy(c))
+                good.append(c)
+            except Exception:
+                pass
+        return copy.deepcopy(rng.choice(good))
+
+    m = Model(ctx)
+    define_registry(m, cs0)
+    m.send("base", "ok")
+    I = m.I
+    valid_prev = [{"cycle length": 50, "burn steps": 1}]
+    combos = list(itertools.product([0, 1], repeat=len(detailed) + len(simple)))
+    for rep in range(ctx.pick(2, 12)):
+        for combo in combos:
+            present = [k for k, on in zip(detailed + simple, combo) if on]
+            e = {k: value_for(k) for k in present}
+            for k in optional:
+                if rng.random() < 0.4:
+                    e[k] = value_for(k)
+            groups = sum(1 for k in detailed if k in e) + (1 if any(k in e for k in simple) else 0)
+            expect_valid = groups == 1
+            raw = [e] if rng.random() < 0.6 else [{"cycle length": 10, "burn steps": 2}, e]
+            case = {"setting": "cycles", "entry keys": sorted(e), "raw": repr(raw)[:300]}
+            okS, vS = schema_of(setting, raw)
+            if okS != expect_valid:
+                ctx.fail("cycles-mixed-inputs-accepted" if okS else "cycles-single-group-rejected",
+                         "a cycle entry is valid exactly when it gives one of: cumulative days, step days, cycle length/burn steps",
+                         case, observed="accepted" if okS else "rejected")
+            # assignment
+            cs = settings.Settings()
+            cs["cycles"] = copy.deepcopy(valid_prev)
+            prev = state_map(cs)
+            m.send("clr", "ok")
+            m.send(f"sch cycles {I(valid_prev)} {I(schema_of(setting, valid_prev)[1])}", "ok")
+            m.send(f"set cycles {I(valid_prev)}", "ok")
+            m.send(f"sch cycles {I(raw)} {I(vS) if okS else 'x'}", "ok")
+            try:
+                cs["cycles"] = copy.deepcopy(raw)
+                st = "ok"
+            except Exception:
+                st = "invalid"
+            m.send(f"set cycles {I(raw)}", st, case)
+            if (st == "ok") != expect_valid:
+                ctx.fail("cycles-assign-verdict", "invalid cycle entries are rejected when assigned, valid ones accepted", case, observed=st)
+            if st == "invalid" and state_map(cs) != prev:
+                ctx.fail("assign-invalid-changes-state", "a refused value leaves the previous value in place", case)
+            m.send("off", off_list(cs, I), case)
+            # through modified()
+            cs = settings.Settings()
+            cs["cycles"] = copy.deepcopy(valid_prev)
+            try:
+                cp = cs.modified(newSettings={"cycles": copy.deepcopy(raw)})
+                stm = "ok"
+            except Exception:
+                cp, stm = None, "reject"
+            m.send("clr", "ok")
+            m.send(f"sch cycles {I(valid_prev)} {I(schema_of(setting, valid_prev)[1])}", "ok")
+            m.send(f"set cycles {I(valid_prev)}", "ok")
+            m.send(f"sch cycles {I(raw)} {I(vS) if okS else 'x'}", "ok")
+            m.send(f"modified [cycles={I(raw)}]", stm, case)
+            if (stm == "ok") != expect_valid:
+                ctx.fail("cycles-modified-verdict", "invalid cycle entries are rejected by modified(), valid ones accepted", case, observed=stm)
+            if state_map(cs) != prev:
+                ctx.fail("modified-affects-original", "modified copies do not affect the original", case)
+            if cp is not None and expect_valid and canon(dict(cp.items())["cycles"].value) != canon(vS):
+                ctx.fail("cycles-modified-value", "the modified copy holds the new cycles", case)
+            # on read
+            cs = settings.Settings()
+            cs["cycles"] = copy.deepcopy(valid_prev)
+            text = yaml_text({"cycles": plain(raw)})
+            doc = parse_doc(text)
+            okD, vD = schema_of(setting, doc["cycles"])
+            try:
+                cs.loadFromString(text, handleInvalids=False)
+                str_ = "ok"
+            except Exception:
+                str_ = "reject"
+            m.send("clr", "ok")
+            m.send(f"sch cycles {I(valid_prev)} {I(schema_of(setting, valid_prev)[1])}", "ok")
+            m.send(f"set cycles {I(valid_prev)}", "ok")
+            m.send(f"sch cycles {I(doc['cycles'])} {I(vD) if okD else 'x'}", "ok")
+            m.send(f"read [cycles={I(doc['cycles'])}]", f"{str_} inv=[]", case)
+            m.send("off", off_list(cs, I), case)
+            if (str_ == "ok") != expect_valid:
+                ctx.fail("cycles-read-verdict", "invalid cycle entries are rejected with an error when read, valid ones accepted", case, observed=str_)
+            if str_ == "reject" and state_map(cs) != prev:
+                ctx.fail("read-invalid-changes-value", "a refused value leaves the previous value in place", case)
+            ctx.count(f"cycle entries ({'valid' if expect_valid else 'invalid'}: {groups} input group(s))")
+            ctx.case(("cycles", tuple(sorted(e)), repr(raw)), nontrivial=True)
+    m.flush("Settings model vs the cycles setting (assignment, modified, read)")
+
+
 def run_verbosity_points(ctx, ref):
     """Excluded points of the model's domain: values the verbosity settings' schemas accept (Coerce(str) /
     Coerce(dict)) but Settings.initLogVerbosity, which every load runs last, cannot digest. Judged by the
@@ -1355,6 +1474,7 @@ def run(ctx):
         run_reader(ctx, cs0, ref)
         run_modified(ctx, cs0, ref)
         run_objects(ctx, ref)
+        run_cycles(ctx, cs0, ref)
         run_flaglist(ctx)
         run_verbosity_points(ctx, ref)
 
